@@ -269,6 +269,49 @@ pub fn run(data: &[u8], ctx: &mut Ctx) -> Outcome {
             ctx.count("distinct-lengths", lengths.len() as u64);
         }
     }
+    // --- salted add of an assertion that is already elided / compressed / encrypted (drawn last): it is
+    // still "that assertion" (same digest), it must carry exactly one salt of its own, and two
+    // independent salted adds must not coincide
+    if src.chance(40) {
+        let form = src.below(3);
+        let plain = Envelope::new_assertion(format!("obscured-salted-{}", src.below(10)), src.below(1000) as u64);
+        let obscured = match form {
+            0 => plain.elide(),
+            1 => plain.compress().unwrap(),
+            _ => plain.encrypt_subject(&bridge::case_key()).unwrap(),
+        };
+        let fname = ["elided", "compressed", "encrypted"][form];
+        ctx.class(&format!("salted-add-of-obscured:{}", fname));
+        let okey = format!("C17/salted-obscured/{}", fname);
+        let mut seen = std::collections::BTreeSet::new();
+        for rep in 0..3 {
+            let r = if rep == 2 {
+                nopanic!(ctx, e.add_assertions_salted(&[obscured.clone()], true), "salted-obscured", &okey)
+            } else {
+                let r = nopanic!(ctx, e.add_assertion_envelope_salted(obscured.clone(), true), "salted-obscured", &okey);
+                tryp!(ctx, r.map_err(|x| format!("salted add of an {} assertion refused: {}", fname, x)), "salted-obscured", &okey)
+            };
+            let rm = nopanic!(ctx, check_digests(&r), "salted-obscured", &okey);
+            let rm = tryp!(ctx, rm, "salted-obscured", &okey);
+            let old: std::collections::BTreeSet<_> = m.assertions().iter().map(|a| a.digest()).collect();
+            let new: Vec<&M> = rm.assertions().iter().filter(|a| !old.contains(&a.digest())).collect();
+            check!(ctx, new.len() == 1 && rm.assertions().len() == m.assertions().len() + 1 && rm.subject().digest() == m.subject().digest(), "salted-obscured", &format!("{}/shape", okey), "result is not the original plus one salted assertion: {}", rm.show());
+            match new[0] {
+                M::Node(sub, a) => {
+                    check!(ctx, sub.digest() == bridge::d32(&plain.digest()) && sub.is_obscured(), "salted-obscured", &format!("{}/shape", okey), "the salted element's subject is not the {} assertion: {}", fname, new[0].show());
+                    check!(ctx, a.len() == 1, "salted-obscured", &format!("{}/shape", okey), "the salted {} assertion carries {} assertions, expected exactly one salt", fname, a.len());
+                    let l = tryp!(ctx, salt_len(&a[0]), "salted-obscured", &format!("{}/shape", okey));
+                    check!(ctx, l >= 8, "salted-obscured", &format!("{}/length", okey), "salt of {} bytes", l);
+                }
+                other => {
+                    check!(ctx, false, "salted-obscured", &format!("{}/shape", okey), "a salted add of an {} assertion added it without a salt: {}", fname, other.show());
+                }
+            }
+            check!(ctx, seen.insert(rm.digest()), "salted-obscured", &format!("{}/repeat", okey), "two independent salted adds of an {} assertion gave the same digest", fname);
+        }
+        ctx.nontrivial = true;
+        return Outcome::Pass;
+    }
     let _ = e.digest();
     ctx.nontrivial = size >= 200 || op >= 5;
     Outcome::Pass
